@@ -10,6 +10,12 @@ for l in open('/verif/properties.jsonl'):
 else:
     sys.exit("no such property")
 wt = f"/tmp/seed/{pid}"
+import os
+avoid = ""
+if len(sys.argv) > 3 and os.path.exists(sys.argv[3]):
+    a = json.load(open(sys.argv[3])).get(pid, [])
+    if a:
+        avoid = "\nAn earlier participant already delivered the following changes for this property — do NOT repeat these ideas or close variants of them; look for different mechanisms, different functions, different kinds of slip:\n" + "\n".join("  * " + x for x in a) + "\n"
 print(f"""You are helping to evaluate how well a software-verification effort detects regressions. Your job is to play the role of a developer who introduces a *realistic, subtle bug* into a code base.
 
 Work ONLY inside the git worktree {wt} — a checkout of the Rust workspace bytecodealliance/wac (WAC: a language, parser, resolver and composition-graph encoder that composes WebAssembly components). Do NOT read or touch /verif or /repo or any other directory under /tmp/seed. The sandbox has no network: always pass --offline to cargo. Use the pre-warmed build directory: export CARGO_TARGET_DIR={wt}/target for every cargo command.
@@ -22,9 +28,10 @@ The property under study (this is everything you are told about the verification
   Anchored in files: {', '.join(p['anchors']['files'])}
   Mechanisms: {json.dumps(p['anchors']['mechanism'])}
 
+{avoid}
 Task: produce up to {n} *independent* source changes (each one a separate small patch against HEAD) to the wac sources (not tests) such that each change
   (a) BREAKS the property above for some input/history/configuration,
-  (b) still compiles, and the existing test suite still passes with it:  cargo test --workspace --no-fail-fast --offline   (the test `encoding::encoding` in crates/wac-graph already fails on the unmodified tree — ignore that one; all other tests must pass exactly as before),
+  (b) still compiles, and the existing test suite still passes with it:  cargo test --workspace --no-fail-fast --offline   (run the suite with RUST_BACKTRACE=0; all tests must pass exactly as on the unmodified tree),
   (c) needs something *specific* to manifest — an unusual input, a multi-step sequence of operations, a particular ordering, or two cooperating sites that each look fine alone — NOT something ordinary use would expose at once,
   (d) looks like a plausible slip a developer could make (refactoring error, wrong variable, dropped case, swapped arguments, off-by-one, missing cleanup, an 'optimisation' that is wrong in a corner case...), in the code the property is anchored in. Prefer variety: make the changes differ in kind and in location. Do not add comments that give the bug away.
 For each change also write a DEMONSTRATION: a Rust integration test file (or small program) that FAILS with the change applied and PASSES on the unmodified tree, exercising the real public API / CLI.
